@@ -63,8 +63,11 @@ def install_counter():
 def required(tier):
     return ['fresh', 'memo-hit', 'recomputed', 'reader:proxy', 'reader:linked', 'reader:view', 'reader:self', 'multi-phase', 'set-back',
             # added
-            'reader:fproxy', 'no-proxy-case', 'late:package', 'late:phases', 'read:derived', 'read:multi-derived', 'read:empty-state', 'mcomp:swap-row', 'mcomp:swap-phase', 'collapse', 'link-rev', 'self-unlink',
+            'reader:fproxy', 'no-proxy-case', 'late:package', 'late:phases', 'package:other-values', 'read:derived', 'read:multi-derived', 'read:empty-state', 'mcomp:swap-row', 'mcomp:swap-phase', 'collapse', 'link-rev', 'self-unlink',
             'reset_cache', 'empty', 'fill', 'scale0', 'view-mut', 'mixE', 'restore'] + ['mut:' + m for m in MUTATORS]
+
+
+_TH3 = {}
 
 
 def twin_of(s):
@@ -102,6 +105,7 @@ def gen_case(rng):
         if t == 'P': st['v'] = rng.choice([101325., 5e4, 3e5])
         if t == 'phase': st['v'] = rng.choice('lg')
         if t == 'flow': st['via'] = rng.choice(['mol', 'imol', 'imass', 'ivol', 'view', 'proxy', 'linked'])
+        if t == 'package': st['pk'] = rng.choice([1, 2])
         if t == 'phases': st['v'] = rng.choice(['lg', 'lL', 'glL', 'gL'])
         if t in ('T', 'P', 'Tback'): st['via'] = rng.choice(['self', 'proxy', 'linked', 'view'])
         if t == 'mut':
@@ -136,6 +140,15 @@ def gen_case(rng):
         rd = {'t': 'read', 'k': 0, 'i': 0, 'v': 0, 'p': prop, 'who': 'self'}
         at = rng.randrange(0, len(steps) + 1)
         steps[at:at] = [dict(rd), {'t': rng.choice(['empty', 'scale0']), 'k': 0, 'i': 0, 'v': 1.0}, dict(rd), {'t': 'fill', 'k': 0, 'i': 0, 'v': rng.choice([1.0, 2.5, 0.4])}, dict(rd)]
+    # added directed pattern: a reader reads, the property package is replaced by one that gives other values for the same state, the same reader reads again
+    # (no proxy / link may be alive for the package step: placed before the proxy is created, or in a case without one)
+    if start['proxy_at'] is None and rng.random() < 0.35:
+        prop = rng.choice(['H', 'S', 'C', 'h', 'Cn', 'Hnet'] if not start['multi'] else ['H', 'S', 'C', 'h'])
+        who = rng.choice(['self', 'view', 'view']) if start['multi'] else 'self'
+        rd = {'t': 'read', 'k': 0, 'i': 0, 'v': 0, 'p': prop, 'who': who}
+        pat = [dict(rd), {'t': 'package', 'k': 0, 'i': 0, 'v': 0, 'pk': 2}, dict(rd), {'t': 'package', 'k': 0, 'i': 0, 'v': 0, 'pk': rng.choice([1, 2])}, dict(rd)]
+        at = 0 if rng.random() < 0.5 else rng.randrange(0, 3)
+        steps[at:at] = pat
     if rng.random() < 0.03: steps.append({'t': 'mut', 'm': 'temporary_phase', 'k': 0, 'i': 0, 'v': 1.0, 'T': Ts[0], 'P': 101325., 'eb': False})
     return {'start': start, 'steps': steps}
 
@@ -283,6 +296,12 @@ def run_case(case, rec):
     install_counter()
     rec.begin_case(case)
     th = thermo_of(IDS); th2 = thermo_of(PERM)
+    # a third package over the same chemicals whose mixture model gives OTHER values for the same state (pure-component excess energies included):
+    # a memo that survives the package change is visible only if the new package disagrees with the old one
+    th3 = _TH3.get('th3')
+    if th3 is None:
+        th3 = _TH3['th3'] = tmo.Thermo(th.chemicals, mixture=tmo.mixture.IdealMixture.from_chemicals(th.chemicals, include_excess_energies=True))
+    packages = [th, th2, th3]
     s = build(case['start'], th)
     proxy = None; linked = None
     fproxy = None; rev = False; snap = None
@@ -404,7 +423,10 @@ def run_case(case, rec):
             elif t == 'package':
                 if linked is not None or proxy is not None: continue
                 fproxy = None
-                s._reset_thermo(th2 if s._thermo is th else th)
+                cur = [k_ for k_, t_ in enumerate(packages) if t_ is s._thermo]
+                new = packages[((cur[0] if cur else 0) + st.get('pk', 1)) % 3]
+                if new is th3 or s._thermo is th3: rec.hit('package:other-values')
+                s._reset_thermo(new)
                 if k >= 6: rec.hit('late:package')
             elif t == 'phases':
                 if linked is not None or (proxy is not None): continue
